@@ -101,9 +101,20 @@ def check(ctx):
               f"{len(rhs_sites)} stores into rhs classified: " + ", ".join(sorted(s.kind for s in rhs_sites))) if not n_other else None
     # stores into rhs from other functions of the module
     ctx.floor("R5", "rhs stores", len(rhs_sites), 7, (FILE, m.func.lineno))
+    # every store precedes the construction of the statements that paste rhs
+    from ..odemodel import write_read_order
+    last, first = write_read_order(m, "rhs")
+    if last is None or first is None:
+        ctx.unrec("R5", "rhs:write-before-use", (FILE, m.func.lineno), "cannot locate the last store into rhs / the construction of fex")
+    else:
+        ctx.check(last.seq < first[0], "R5", "rhs:write-before-use", (FILE, last.line),
+                  "all terms (and the thermal prefactor) are in rhs before the ydot statements are built from it" if last.seq < first[0] else
+                  f"rhs is still modified at line {last.line} after line {first[1]} where {first[2]}: the emitted statements miss that update",
+                  expected="stores into rhs, then fex = [...]", found=f"last store line {last.line}, consumer line {first[1]}")
 
     # ---- R7 thermal equation ----------------------------------------------------
     _r7(ctx, m, rhs_sites)
+    _numdens(ctx)
 
     # ---- R6 pseudo-reactants ----------------------------------------------------
     _r6(ctx)
@@ -261,6 +272,30 @@ def _r7(ctx, m, rhs_sites):
                   expected="(gamma - 1.0) * ( <accumulated> ) / kerg / npar", found=lw.text)
 
 
+def _numdens(ctx):
+    """npar = GetNumDens(y) is the sum of the NSPECIES abundances (the temperature slot excluded)."""
+    rel = "naunet/templates/base/cpp/src/naunet_physics.cpp.j2"
+    ctx.saw(rel)
+    import re
+    sk = Skel(J.flatten(ctx.tree, rel, {}))
+    fs = sk.func("GetNumDens")
+    if not fs:
+        ctx.missing("R7", "GetNumDens", (rel, 0), "GetNumDens not found")
+        return
+    body = re.sub(r"\s+", "", sk.plain(fs[0].body))
+    ok = "for(inti=0;i<NSPECIES;i++)numdens+=y[i];" in body and "returnnumdens;" in body and "doublenumdens=0.0;" in body
+    ctx.check(ok, "R7", "GetNumDens:species only", (rel, 0),
+              "the particle density in the temperature equation sums y[0..NSPECIES-1]" if ok else
+              "GetNumDens does not sum exactly the NSPECIES abundances: with a thermal process the temperature slot y[NSPECIES] enters the particle density",
+              expected="for (int i = 0; i < NSPECIES; i++) numdens += y[i];", found=body[:120])
+    # npar is registered as GetNumDens(y)
+    from ..ratemodel import model as ratemodel
+    reg = ratemodel(ctx.tree).effective_registry("ThermalProcess")
+    r = reg.get("particle_number_density")
+    okr = r is not None and r["symbol"] == ("const", "npar") and r["value"] == ("const", "GetNumDens(y)")
+    ctx.check(okr, "R7", "npar = GetNumDens(y)", ("naunet/thermalprocess.py", r["line"] if r else 0), "the thermal wrap divides by npar = GetNumDens(y)")
+
+
 def _r6(ctx):
     """Reactant / product lists are only ever filled through _create_species with a None filter."""
     import ast
@@ -307,6 +342,23 @@ def _r6(ctx):
         ok = inside and not outside and ret_none
     ctx.check(ok, "R6", "Component._create_species:pseudo-filter", ("naunet/component.py", fn.lineno),
               "Species(..) is constructed only for names not in Species.known_pseudoelements(); otherwise None is returned")
+    # the list consulted is the CONFIGURED pseudo-element list whenever any list was configured
+    kp = pkg.method("Species", "known_pseudoelements")
+    ctx.saw("naunet/species.py", "Species.known_pseudoelements")
+    kfl = Flow(kp, "naunet/species.py")
+    CLS = ("param", "cls")
+    KE, KP, DEF = ("attr", CLS, "_known_elements"), ("attr", CLS, "_known_pseudoelements"), ("attr", CLS, "default_pseudoelements")
+    both_empty = ("bool", "And", (("unop", "Not", KE), ("unop", "Not", KP)))
+    rets = [(simp(f.value), tuple((simp(g), p) for g, p in f.guards)) for f in kfl.facts if f.kind == "return"]
+    want = {(DEF, ((both_empty, True),)), (KP, ((both_empty, False),))}
+    alt = {(DEF, ((("bool", "And", (both_empty[2][1], both_empty[2][0])), True),)), (KP, ((("bool", "And", (both_empty[2][1], both_empty[2][0])), False),))}
+    okp = set(rets) in (want, alt)
+    ctx.check(okp, "R6", "Species.known_pseudoelements:configured list", ("naunet/species.py", kp.lineno),
+              "the default pseudo-elements are used only when neither list was configured; otherwise exactly the configured pseudo-elements" if okp else
+              "the pseudo-element list consulted by _create_species is not `configured list, or the defaults when nothing at all is configured`: with elements configured and no "
+              "pseudo-elements, a real species whose name is a DEFAULT pseudo-element (e.g. a species named M) is silently dropped from the reaction terms",
+              expected="default_pseudoelements if (not _known_elements and not _known_pseudoelements) else _known_pseudoelements",
+              found="; ".join(f"{show(v)[:40]} if {[('' if p else 'not ') + show(g)[:60] for g, p in gs]}" for v, gs in rets))
 
 
 def _filtered_create(v):
